@@ -15,8 +15,8 @@ following the Slice2 encoding rules:
 and the ghost `impl EncodeInto for &T { open spec fn enc(self) }` hooks that make the real
 impls' trait contract mean "output == old output ++ enc_<T>(value)".
 
-Field names are matched to definition_types.rs BY ORDER AND COUNT (camelCase schema name must equal
-the snake_case Rust name); any mismatch, and any construct outside the subset these three files
+Fields are matched to definition_types.rs BY NAME (camelCase schema name == snake_case Rust name; same
+count); the oracle's order is the schema's. Any mismatch, and any construct outside the subset these three files
 use, stops the unit with exit 2.
 """
 import os
@@ -146,9 +146,13 @@ def generate(repo):
             rfields = rust_struct_fields(rs, name)
             if len(rfields) != len(fields):
                 raise SchemaError(f"{name}: schema has {len(fields)} fields, Rust struct has {len(rfields)}")
-            for (sn, _), (rn, _) in zip(fields, rfields):
-                if snake(sn) != rn:
-                    raise SchemaError(f"{name}: schema field {sn} does not correspond to Rust field {rn} (order/count mapping)")
+            # schema field <-> Rust field BY NAME (camelCase == snake_case); the ORDER of the oracle is
+            # the schema's, whatever order the Rust struct declares or encodes its fields in
+            byname = {rn: (rn, rt) for (rn, rt) in rfields}
+            for (sn, _) in fields:
+                if snake(sn) not in byname:
+                    raise SchemaError(f"{name}: schema field {sn} has no Rust field named {snake(sn)}")
+            rfields = [byname[snake(sn)] for (sn, _) in fields]
             opts = [(i, f) for i, f in enumerate(fields) if f[1].strip().endswith("?")]
             parts = []
             if opts:
@@ -159,7 +163,12 @@ def generate(repo):
             for (sn, ty), (rn, _) in zip(fields, rfields):
                 parts.append(enc_field(f"v.{rn}", ty, aliases))
             parts.append("tag_end()")
-            out.append(f"pub open spec fn enc_{name}(v: {name}) -> Seq<u8> {{\n    " + "\n        + ".join(parts) + "\n}")
+            # opaque: only the impl of this very type needs the definition (it reveals it); every other
+            # query sees enc_<T> as an uninterpreted function and stays small
+            out.append(f"#[verifier::opaque]\npub open spec fn enc_{name}(v: {name}) -> Seq<u8> {{\n    " + "\n        + ".join(parts) + "\n}")
+            # the same parts as a list (proof hints compare the k-th encoded part with the k-th
+            # prescribed part: a swapped pair then fails a one-field comparison at once)
+            out.append(f"#[verifier::opaque]\npub open spec fn parts_{name}(v: {name}) -> Seq<Seq<u8>> {{\n    seq![" + ",\n        ".join(parts) + "]\n}")
             hooks.append(name)
         elif name in enums:
             arms = []
